@@ -141,9 +141,10 @@ KANI_UNITS["C45"] = dict(
     appends=[("crates/varpulis-runtime/src/circuit_breaker.rs", "__vpv_c45", "contracts/kani/c45.rs")],
     grade="K-complete", level="other", timeout=2400, harness_timeout=600,
     cell_grades={"c45_opens_after": "K-bounded(thresholds 1..=4, 4 failures)"},
-    native_grade="bounded(native exhaustive enumeration: 6 sink names x 7 error texts (quotes, backslashes, newlines, non-ASCII) x single write and batches of 0..=3 events)",
+    native_grade="bounded(native exhaustive enumeration: DLQ — 6 sink names x 7 error texts x single write and batches of 0..=3 events; ResilientSink — scripts of <= 5 calls over 5 call kinds x 2 thresholds x 2 reset timeouts)",
     functions=["varpulis-runtime/src/circuit_breaker.rs: CircuitBreaker::new, allow_request, record_success, record_failure, state (Kani)",
-               "varpulis-runtime/src/dead_letter.rs: DeadLetterQueue::open, write, write_batch, count (native enumeration)"],
+               "varpulis-runtime/src/dead_letter.rs: DeadLetterQueue::open, write, write_batch, count (native enumeration)",
+               "varpulis-runtime/src/sink.rs: ResilientSink::send, send_batch (native enumeration)"],
     explanation=("PARTIAL (breaker only; 'never loses an event' NOT decided). The contract is the 20-line step function spec_step (contracts/kani/c45.rs). Loop-free cells over ALL "
                  "inner states (state x consecutive_failures x last_failure present/absent), all thresholds >= 1, all reset timeouts and all elapsed times prove that each real "
                  "method implements spec_step exactly: Closed admits; record_failure in Closed opens iff failures+1 >= threshold (hence after exactly `threshold` consecutive "
@@ -151,8 +152,10 @@ KANI_UNITS["C45"] = dict(
                  "nothing until record_success (closes, zeroes the counter) or record_failure (reopens). All state is behind one Mutex and each method is one critical section, so "
                  "any interleaving of concurrent senders is a sequence of these steps. The dead-letter queue (file I/O + serde) is covered by a BOUNDED STAND-IN run natively: "
                  "written singly or in batches, every event yields exactly one line that is a JSON object naming the sink and the error text exactly (texts with quotes, backslashes, "
-                 "newlines, non-ASCII) and carrying the event; the counter agrees. NOT covered: ResilientSink::send/send_batch (async): that every rejected or failed event REACHES the "
-                 "queue is not decided here."),
+                 "newlines, non-ASCII) and carrying the event; the counter agrees. ResilientSink::send / send_batch (async trait object) likewise by a native stand-in: a scripted "
+                 "downstream behind the real sink, breaker and queue, every script of <= 5 calls over 5 call kinds, thresholds 1 and 2, reset timeout 0 and 1 h: every event handed "
+                 "over is delivered or queued exactly once, the breaker is never left half-open between calls, a success at timeout 0 closes it. NOT decided: concurrent senders "
+                 "through the sink (the breaker's own steps are atomic, see above), other Sink implementations."),
     assumptions=["kani::stub std::time::Instant::elapsed -> Duration from a harness-controlled value (virtual clock)",
                  "kani::stub std::time::Instant::now -> fixed Instant built by transmuting (i64 secs, u32 nanos) (layout assumption: size_of::<Instant>() == 16)",
                  "std::sync::Mutex is a mutex (concurrency argument); consecutive_failures < u32::MAX (2^32 consecutive failures would overflow the counter)"],
